@@ -87,7 +87,8 @@ namespace RecInt
     }
     template <size_t K>
     inline bool operator==(const rmint<K, MGI>& a, const ruint<K>& b) {
-        return operator==(a.Value, b);
+        rmint<K, MGI> br(b); // equality of residues, as in the Montgomery variant
+        return operator==(a.Value, br.Value);
     }
     template <size_t K>
     inline bool operator==(const rmint<K, MGA>& a, const ruint<K>& b) {
@@ -96,11 +97,13 @@ namespace RecInt
     }
     template <size_t K, typename T>
     inline __RECINT_IS_ARITH(T, bool) operator==(const rmint<K, MGI>& a, const T& b) {
-        return operator==(a.Value, b);
+        rmint<K, MGI> br(b);
+        return operator==(a.Value, br.Value);
     }
     template <size_t K, typename T>
     inline __RECINT_IS_ARITH(T, bool) operator==(const T& b, const rmint<K, MGI>& a) {
-        return operator==(a.Value, b);
+        rmint<K, MGI> br(b);
+        return operator==(a.Value, br.Value);
     }
     template <size_t K, typename T>
     inline __RECINT_IS_ARITH(T, bool) operator==(const rmint<K, MGA>& a, const T& b) {
@@ -120,7 +123,8 @@ namespace RecInt
     }
     template <size_t K>
     inline bool operator!=(const rmint<K, MGI>& a, const ruint<K>& b) {
-        return operator!=(a.Value, b);
+        rmint<K, MGI> br(b);
+        return operator!=(a.Value, br.Value);
     }
     template <size_t K>
     inline bool operator!=(const rmint<K, MGA>& a, const ruint<K>& b) {
@@ -129,11 +133,13 @@ namespace RecInt
     }
     template <size_t K, typename T>
     inline __RECINT_IS_ARITH(T, bool) operator!=(const rmint<K, MGI>& a, const T& b) {
-        return operator!=(a.Value, b);
+        rmint<K, MGI> br(b);
+        return operator!=(a.Value, br.Value);
     }
     template <size_t K, typename T>
     inline __RECINT_IS_ARITH(T, bool) operator!=(const T& b, const rmint<K, MGI>& a) {
-        return operator!=(a.Value, b);
+        rmint<K, MGI> br(b);
+        return operator!=(a.Value, br.Value);
     }
     template <size_t K, typename T>
     inline __RECINT_IS_ARITH(T, bool) operator!=(const rmint<K, MGA>& a, const T& b) {
